@@ -53,6 +53,7 @@ ValueFamilies == <<
   [name |-> "logerfc.asym",    n |-> Len(LogErfcAsymX)],
   [name |-> "besseli.gen",     n |-> Len(BesGenXs)],
   [name |-> "besseli.edge",    n |-> Len(BesEdgeList)],
+  [name |-> "besseli.bigx",    n |-> Len(BesBigNs) * Len(BesBigXs)],
   [name |-> "logadd.inf",      n |-> Len(LogInfList)],
   [name |-> "class",           n |-> Len(ClassList)]
 >>
@@ -94,6 +95,7 @@ ValueCase(name, k) ==
     [] name = "logerfc.asym"    -> LogErfcAsym(k)
     [] name = "besseli.gen"     -> BesGen(BesGenXs[k])
     [] name = "besseli.edge"    -> BesEdge(BesEdgeList[k])
+    [] name = "besseli.bigx"    -> BesBig(BesBigNs[((k - 1) \div Len(BesBigXs)) + 1], BesBigXs[((k - 1) % Len(BesBigXs)) + 1])
     [] name = "logadd.inf"      -> LogInf(LogInfList[k])
     [] name = "class"           -> ClassCase(k)
     [] name = "mgamma.closed"   -> LET kk == MlgKs[((k - 1) \div 7) + 1] IN MgammaClosed(MlgX2(kk)[((k - 1) % 7) + 1], kk)
